@@ -39,6 +39,12 @@ MODEL = "model_of"
 # names of the builtins namespace that a poisoned module pre-binds (module attributes such as
 # __name__ are left alone: the class statement itself reads them)
 _KEEP = {"__name__", "__doc__", "__package__", "__loader__", "__spec__", "__debug__", "__builtins__"}
+# A module-level global called __dict__ is covered by the dedicated `repeat` family (finding K14):
+# CPython 3.12's specialised LOAD_ATTR for module attributes reads `module.__dict__` from the
+# module's own dict once the instruction is warm, so attrs' `sys.modules[...].__dict__` may get
+# that global instead of the namespace.  Whether the specialisation fires depends on the whole
+# history of the process, so the per-class families leave this one name alone.
+NO_POISON = {"__dict__"}
 BUILTIN_NAMES = sorted(n for n in dir(builtins) if n not in _KEEP and all(32 <= ord(c) < 127 for c in n))
 
 HEADER = ("From Attrs Require Import Base Core.Attr Core.Init C17.Model C17.Corr.\n"
@@ -237,7 +243,7 @@ class Env:
                 p = Poison(n, 1000 + i)
                 d[n] = p
             for n in poison_names:
-                if n in _KEEP or n == "H" or n in d:
+                if n in _KEEP or n in NO_POISON or n == "H" or n in d:
                     continue
                 self.bound.append(n)
                 d[n] = Poison(n, len(self.bound))
@@ -1511,6 +1517,49 @@ def thr_case(plan):
         e.close()
 
 
+# ---- family (f): many definitions in ONE module that binds a given global ---------------------
+
+REPEAT_SCRIPT = r'''
+import sys, types, json, attr
+name = "verif_c17_repeat"
+m = types.ModuleType(name); sys.modules[name] = m
+d = vars(m)
+d["attr"] = attr
+class Marked(Exception): pass
+class P:
+    def __getattr__(self, n): raise Marked(n)
+    def __call__(self, *a, **k): raise Marked("call")
+    def __iter__(self): raise Marked("iter")
+for n in %(bind)r:
+    d[n] = P()
+fails = []
+for i in range(%(n)d):
+    try:
+        exec("@attr.s(unsafe_hash=True, frozen=bool(%%d %%%% 2))\nclass C:\n    x%%d = attr.ib(default=1, validator=lambda i, a, v: None)\n" %% (i, i), d)
+        c = d["C"](); repr(c); c == c; hash(c)
+    except BaseException as e:
+        fails.append([i, type(e).__name__])
+print(json.dumps(fails))
+'''
+
+
+def repeat_case(bind, n=40):
+    """Fresh interpreter (the effect depends on how warm attrs' own bytecode is): one module binds the
+    given globals, then n classes are defined and used in it."""
+    import os
+    import subprocess
+    p = subprocess.run([sys.executable, "-B", "-c", REPEAT_SCRIPT % {"bind": list(bind), "n": n}],
+                       stdout=subprocess.PIPE, stderr=subprocess.PIPE, text=True, timeout=300, env=dict(os.environ))
+    try:
+        fails = json.loads(p.stdout.strip().splitlines()[-1])
+        err = None
+    except Exception:
+        fails, err = [[-1, "no-result"]], p.stderr[-800:]
+    inp = {"family": "repeat", "bind": list(bind), "n": n}
+    return prop_case(not fails, inp, {"failed_definitions_or_uses": fails[:6], "count": len(fails), "stderr": err},
+                     {"family": "repeat", "module_binds": ",".join(bind), "what": "definition-or-use-fails"})
+
+
 # --------------------------------------------------------------------------------------
 # generation
 
@@ -1556,6 +1605,9 @@ def generate(tier, seed):
         uid[0] += 1
         return "%d" % uid[0]
 
+    for bind in (["__dict__"], ["__dict_", "__class__", "__module__", "__qualname__", "__setattr__", "_config",
+                                "_compat", "hash", "attr_dict", "NOTHING", "_cached_setattr_get", "object"]):
+        cases.extend(safe(lambda: [repeat_case(bind)], {"family": "repeat", "bind": bind, "n": 40}))
     for i in range(n_hist):
         plan = gen_hist_plan(rng)
         cases.extend(safe(lambda: [hist_case(plan)], {"family": "hist", "plan": plan}))
@@ -1606,6 +1658,8 @@ def _rerun(inp):
     if fam == "getattr":
         cs = getattr_cases(inp["seed"], inp["has_original"], which=inp["variant"])
         return cs[0]
+    if fam == "repeat":
+        return repeat_case(inp["bind"], inp["n"])
     if fam == "hist":
         return hist_case(inp["plan"])
     if fam == "thr":
